@@ -395,12 +395,45 @@ fn natural_order_result(parts: &[Vec<u8>]) -> Option<String> {
     acc.as_mut()?.get_info().map(|i| format!("{:?}", i))
 }
 
+/// Parts that belong to another server's answer: the same formats with another token.
+fn foreign_parts(n: usize) -> Vec<Vec<u8>> {
+    let n = n.max(1);
+    let mut f = info_fields("iext", "8", n, 64.max(n), None, None);
+    for i in 0..n.min(16) {
+        f.extend(client_fields("iext", &client(i)));
+    }
+    let mut g = info_fields("iex+", "8", 0, 0, None, Some("1"));
+    g.extend(client_fields("iex+", &client(0)));
+    let mut h = info_fields("dtsf", "8", n, 64, Some(0), None);
+    for i in 0..n.min(24) {
+        h.extend(client_fields("dtsf", &client(i)));
+    }
+    vec![datagram("iext", &f), datagram("iex+", &g), datagram("dtsf", &h)]
+}
+
 fn run_merge(parts: &[Vec<u8>], order: &[usize], n: usize) -> Result<String, String> {
     let reference = natural_order_result(parts);
     let mut acc: Option<PartialServerInfo> = None;
     let mut seen = std::collections::BTreeSet::new();
     let mut completions = 0;
     for (step, &pi) in order.iter().enumerate() {
+        if pi >= parts.len() {
+            // a part of another server's answer (another token, or the other multi-part format):
+            // the merge must be refused and must leave what was collected so far untouched - the
+            // expectations for the parts that follow stay exactly the same
+            let foreign = foreign_parts(n);
+            let f = parse_partial(&foreign[(pi - parts.len()) % foreign.len()]).ok_or("the foreign part does not parse")?;
+            if let Some(a) = acc.as_mut() {
+                if a.merge(f).is_ok() {
+                    return Err(format!("a part of another server's answer was merged at step {}", step));
+                }
+                let complete_expected = seen.len() == parts.len();
+                if a.get_info().is_some() != complete_expected {
+                    return Err(format!("after a refused merge (step {}) the info is reported {} although {} of {} parts were merged", step, if complete_expected { "incomplete" } else { "complete" }, seen.len(), parts.len()));
+                }
+            }
+            continue;
+        }
         let p = parse_partial(&parts[pi]).ok_or_else(|| format!("part {} does not parse", pi))?;
         match acc.as_mut() {
             None => acc = Some(p),
@@ -462,6 +495,9 @@ fn merging(run: &Arc<Run>, thorough: bool) {
             continue;
         }
         let maxlen = k + 2;
+        // (three more symbols: parts of another server's answer, which must be refused)
+        let real_parts = k;
+        let k = if k <= 3 { k + 3 } else { k };
         let total: usize = (1..=maxlen).map(|d| k.pow(d as u32)).sum();
         let lc = (0..total)
             .into_par_iter()
@@ -481,10 +517,12 @@ fn merging(run: &Arc<Run>, thorough: bool) {
                 match vp_core::catch(|| run_merge(parts, &order, *n)) {
                     Ok(Ok(c)) => lc.class(&format!("{}:{}", name.split(':').next().unwrap_or(""), c), || json!({"server": name, "order": order})),
                     Ok(Err(msg)) => {
-                        let mut sorted = order.clone();
+                        // (only parts of this server's answer count as repetitions)
+                        let own: Vec<usize> = order.iter().cloned().filter(|&x| x < real_parts).collect();
+                        let mut sorted = own.clone();
                         sorted.sort();
                         sorted.dedup();
-                        let dup = if sorted.len() != order.len() { "with-repeated-part" } else { "no-repeated-part" };
+                        let dup = if sorted.len() != own.len() { "with-repeated-part" } else { "no-repeated-part" };
                         run.violation(&format!("c18:merge:{}:{}:{}", name.split(':').next().unwrap_or(""), dup, msg.split(|c: char| c.is_ascii_digit() || c == '{' || c == '[').next().unwrap_or("").trim()), &format!("{}: {}", name, msg), json!({"server": name, "order_of_parts": order, "parts_hex": parts.iter().map(|p| vp_core::hex_short(p)).collect::<Vec<_>>()}));
                     }
                     Err(p) => {
@@ -544,7 +582,7 @@ fn main() {
     merging(&run, true);
     run.assume("parts come from a consistent server: the 64-player legacy info in packets of 24 clients with offsets, the extended info as one main packet plus non-empty 'more' packets numbered from 1 (doc/serverinfo_extended.md)");
     run.finish(
-        "parsing: a well-formed datagram of each of the thirteen response kinds with every numeric field set to each of 25 boundary/garbage values and pairs of fields up to 3 apart (thorough: all pairs of fields), every truncation, every integer of the 0.7 info in ten non-canonical encodings, client counts around 16/24/64, offsets and packet numbers around 64, all first bytes; merging: servers with N in {0,1,2,23,24,25,47,48,49,64} clients split into legacy-64 and extended parts, for <= 4 parts all sequences of length <= parts+2 (every permutation with every duplication), for up to 64 parts listed permutation families with duplications; oracle: complete exactly when every part was seen, then every client exactly once",
+        "parsing: a well-formed datagram of each of the thirteen response kinds with every numeric field set to each of 25 boundary/garbage values and pairs of fields up to 3 apart (thorough: all pairs of fields), every truncation, every integer of the 0.7 info in ten non-canonical encodings, client counts around 16/24/64, offsets and packet numbers around 64, all first bytes; merging (parts of another server's answer - another token, either multi-part format - may come in between: refused, and what was collected stays untouched): servers with N in {0,1,2,23,24,25,47,48,49,64} clients split into legacy-64 and extended parts, for <= 4 parts all sequences of length <= parts+2 (every permutation with every duplication), for up to 64 parts listed permutation families with duplications; oracle: complete exactly when every part was seen, then every client exactly once",
         true,
     );
 }
